@@ -14,6 +14,10 @@ Inductive meth :=
 | MVal.
 
 Inductive lit := LInt (z : Z) | LFloat (m e : Z).
+(* pysnark.pack schemas *)
+Inductive pschema := KBool | KIntMod (m : Z) | KList (l : list pschema) | KRepeat (s : pschema) (k : nat).
+(* argument / result structures of @snark functions: registers at the leaves *)
+Inductive rtree := RLeaf (r : nat) | RList (l : list rtree) | RTuple (l : list rtree).
 Inductive stmt :=
 | SInput (d : nat) (k : inkind) (i : nat)
 | SConst (d : nat) (v : lit)
@@ -37,7 +41,17 @@ Inductive stmt :=
 | SOWhile (condb : list stmt) (cr : nat) (iters : nat) (body : list stmt)
       (* k = 0;  while _while(<condb>; regs[cr]) and k < iters: body; k += 1;   _endwhile() *)
 | SBreakIf (cnd : nat)                               (* _breakif(c) *)
-| SOFor (ix : nat) (start : Z) (stop : nat) (maxv : Z) (check : bool) (body : list stmt).
+| SOFor (ix : nat) (start : Z) (stop : nat) (maxv : Z) (check : bool) (body : list stmt)
+(* ---- pysnark.array.Array ---- *)
+| SArrNew (d : nat) (elems : list nat)               (* Array([regs...]) ; rows of a 2-D array are Arrays themselves *)
+| SArrGet (d : nat) (a : nat) (idx : list nat)       (* regs[d] = regs[a][i] or regs[a][i, j] *)
+| SArrSet (a : nat) (idx : list nat) (v : nat)       (* regs[a][i] = regs[v]  /  regs[a][i, j] = regs[v] *)
+(* ---- pysnark.pack ---- *)
+| SPack (d : nat) (k : pschema) (src : nat)          (* regs[d] = schema.pack(regs[src]) *)
+| SUnpack (d : nat) (k : pschema) (src : nat)        (* regs[d] = schema.unpack(regs[src], 0) *)
+(* ---- runtime.snark ---- *)
+| SSnark (d : nat) (args : list rtree) (body : list stmt) (res : rtree).
+      (* regs[d] = snark(fn)(args...) where fn binds its converted arguments to the argument registers, runs body, returns res *)
       (* for i in _range(start, regs[stop], max=maxv, checkstopmax=check): regs[ix] = i; body;   _endfor() *)
 
 Section WithP.
@@ -65,6 +79,8 @@ Fixpoint name_val (v : pyval) : G pyval :=
                         match l with [] => ret [] | a :: l0 => b <- name_val a ;; r <- go l0 ;; ret (b :: r) end) l ;; ret (PList l')
   | PTuple l => l' <- (fix go (l : list pyval) : G (list pyval) :=
                         match l with [] => ret [] | a :: l0 => b <- name_val a ;; r <- go l0 ;; ret (b :: r) end) l ;; ret (PTuple l')
+  | PArr rw l => l' <- (fix go (l : list pyval) : G (list pyval) :=
+                        match l with [] => ret [] | a :: l0 => b <- name_val a ;; r <- go l0 ;; ret (b :: r) end) l ;; ret (PArr rw l')
   | _ => ret v
   end.
 
@@ -80,6 +96,7 @@ Fixpoint out_val (v : pyval) : list cmd :=
   | PFloat m e => let '(m', e') := if m =? 0 then (0, 0) else norm_float 2000 m e in [COut 4 (VConst m') [(0, e')]]
   | PList l => COut 5 (VConst (Z.of_nat (length l))) [] :: flat_map out_val l
   | PTuple l => COut 6 (VConst (Z.of_nat (length l))) [] :: flat_map out_val l
+  | PArr _ l => COut 12 (VConst (Z.of_nat (length l))) [] :: flat_map out_val l
   | PNone => [COut 7 (VConst 0) []]
   | PNotImpl => [COut 8 (VConst 0) []]
   end.
@@ -164,6 +181,156 @@ Definition gen_meth (m : meth) (recv : pyval) (args : list pyval) : G pyval :=
   | _, _, _ => static_raise AttributeError
   end.
 
+(* Python sum(l): starts from the int 0 *)
+Definition py_sum (l : list pyval) : G pyval :=
+  fold_left (fun (acc : G pyval) (y : pyval) => a <- acc ;; op2 OAdd a y) l (ret (PInt 0)).
+Fixpoint upd_nth {A} (l : list A) (i : nat) (v : A) : list A :=
+  match l, i with [], _ => [] | _ :: l', O => v :: l' | x :: l', S i' => x :: upd_nth l' i' v end.
+(* Python list index with a public int (negative indexes count from the end) *)
+Definition py_index (len k : Z) : option nat := if (- len <=? k) && (k <? len) then Some (Z.to_nat (k mod len)) else None.
+(* the one-hot selector of Array.__getitem__/__setitem__ with a secret index: bounds check, [item == ix ...], sum(ixs).assert_eq(1) *)
+Definition arr_selector (l : list pyval) (x : slc) : G (list pyval) :=
+  s <- get ;;
+  let len := Z.of_nat (length l) in
+  raise_if (BAnd (BNot (ignore s)) (BOr (BLt (sval x) (VConst 0)) (BLe (VConst len) (sval x)))) IndexError ;;;
+  ixs <- mapM_range (fun j => op2 OEq (PLC x) (PInt (Z.of_nat j))) 0 (length l) ;;
+  sm <- py_sum ixs ;;
+  match sm with
+  | PLC t => one1 <- ensurelc (PInt 1) ;; assert_eq t one1 ;;; ret ixs
+  | _ => static_raise AttributeError                       (* empty array: (0).assert_eq *)
+  end.
+Definition arr_get1 (l : list pyval) (i : pyval) : G pyval :=
+  match i with
+  | PInt k => match py_index (Z.of_nat (length l)) k with Some j => ret (nth j l PNone) | None => static_raise IndexError end
+  | PLC x =>
+      ixs <- arr_selector l x ;;
+      ts <- zipM (fun cf v => op2 OMul cf v) ixs l ;;              (* lin_comb(ixs, self.arr) = sum([c*v ...]) *)
+      r <- py_sum ts ;;
+      ret (match r with PArr _ m => PArr true m | _ => r end)       (* an Array result is wrapped as ArrayRow *)
+  | _ => static_raise TypeError
+  end.
+Fixpoint arr_get (l : list pyval) (idx : list pyval) : G pyval :=
+  match idx with
+  | [] => static_raise IndexError
+  | [i] => arr_get1 l i
+  | i :: rest => v <- arr_get1 l i ;; match v with PArr _ m => arr_get m rest | _ => static_raise TypeError end
+  end.
+Definition arr_set1 (l : list pyval) (i : pyval) (v : pyval) : G (list pyval) :=
+  match i with
+  | PInt k => match py_index (Z.of_nat (length l)) k with Some j => ret (upd_nth l j v) | None => static_raise IndexError end
+  | PLC x =>
+      ixs <- arr_selector l x ;;
+      zipM (fun cf old => if_then_else c op2 cf v old) ixs l
+  | _ => static_raise TypeError
+  end.
+Fixpoint arr_set (l : list pyval) (idx : list pyval) (v : pyval) : G (list pyval) :=
+  match idx with
+  | [] => static_raise IndexError
+  | [i] => arr_set1 l i v
+  | i :: rest =>
+      it <- arr_get1 l i ;;                                          (* it = self[item[0]]; ArrayRow -> Array(it) *)
+      match it with
+      | PArr _ m => m' <- arr_set m rest v ;; arr_set1 l i (PArr false m')      (* it[item[1:]] = value; self[item[0]] = it *)
+      | _ => static_raise TypeError
+      end
+  end.
+
+(* ---------------- pysnark.pack ---------------- *)
+Definition bitlen_of (m : Z) : nat := Z.to_nat (bit_length (m - 1)).          (* (self.mod-1).bit_length() *)
+Fixpoint sch_bitlen (k : pschema) : nat :=
+  match k with
+  | KBool => 1 | KIntMod m => bitlen_of m
+  | KList l => fold_right (fun x acc => sch_bitlen x + acc)%nat 0%nat l
+  | KRepeat s t => (sch_bitlen s * t)%nat
+  end.
+Definition py_bits (v : Z) (n : nat) : list pyval := map (fun i => PInt (Z.shiftr (Z.land v (Z.shiftl 1 (Z.of_nat i))) (Z.of_nat i))) (seq 0 n).
+Definition concat_lists (ls : list pyval) : G pyval :=       (* functools.reduce(lambda x, y: x + y, ls) *)
+  match ls with
+  | [] => static_raise TypeError
+  | x :: rest => fold_left (fun (acc : G pyval) y => a <- acc ;; match a, y with PList p1, PList p2 => ret (PList (p1 ++ p2)) | _, _ => static_raise TypeError end) rest (ret x)
+  end.
+Fixpoint pack_v (k : pschema) (v : pyval) {struct k} : G pyval :=
+  match k with
+  | KBool => match v with
+             | PLC _ => ret (PList [v])                                   (* a LinComb is passed through unchecked *)
+             | PInt z => ret (PList [PInt (if z =? 0 then 0 else 1)])
+             | PBool _ _ | PFxp _ _ => static_raise NotImplementedError   (* bool(val) *)
+             | PList l | PTuple l => ret (PList [PInt (match l with [] => 0 | _ => 1 end)])
+             | _ => ret (PList [PInt 0]) end
+  | KIntMod m => match v with
+                 | PLC x => bs <- to_bits x (bitlen_of m) ;; ret (PList (map (PBool 0) bs))
+                 | PInt z => if (z <? 0) || (m <=? z) then static_raise ValueError else ret (PList (py_bits z (bitlen_of m)))
+                 | _ => static_raise TypeError end
+  | KList l => match v with
+               | PList vs | PTuple vs =>
+                   parts <- (fix go (ks : list pschema) (vs : list pyval) : G (list pyval) :=
+                               match ks, vs with k1 :: ks', v1 :: vs' => a <- pack_v k1 v1 ;; r <- go ks' vs' ;; ret (a :: r) | _, _ => ret [] end) l vs ;;
+                   concat_lists parts
+               | _ => static_raise TypeError end
+  | KRepeat s _ => match v with
+                   | PList vs | PTuple vs => parts <- mapM (pack_v s) vs ;; concat_lists parts
+                   | _ => static_raise TypeError end
+  end.
+Definition nth_bits (bits : list pyval) (pos : nat) : G pyval :=
+  if Nat.ltb pos (length bits) then ret (nth pos bits PNone) else static_raise IndexError.
+Fixpoint unpack_v (k : pschema) (bits : list pyval) (pos : nat) {struct k} : G pyval :=
+  match k with
+  | KBool => nth_bits bits pos
+  | KIntMod m =>
+      b0 <- nth_bits bits pos ;;
+      let sl := firstn (bitlen_of m) (skipn pos bits) in
+      match b0 with
+      | PLC _ | PBool _ _ =>
+          (* ret = LinComb.from_bits(bits[pos:pos+bitlen]); ret.assert_lt(self.mod) *)
+          match sl with
+          | [] => static_raise AttributeError
+          | x0 :: rest =>
+              t0 <- op2 OMul x0 (PInt 1) ;; a0 <- op2 OAdd (PInt 0) t0 ;;
+              r <- (fix go (acc : pyval) (bs : list pyval) (i : Z) : G pyval :=
+                      match bs with [] => ret acc | b :: bs' => t <- op2 OMul b (PInt (2 ^ i)) ;; a <- op2 OAdd acc t ;; go a bs' (i + 1) end) a0 rest 1 ;;
+              match r with
+              | PLC x => y <- ensurelc (PInt m) ;; assert_lt c x y ;;; ret r
+              | _ => static_raise AttributeError end
+          end
+      | _ => (* sum([(1<<ix)*v ...]) on plain ints *)
+          ts <- (fix go (bs : list pyval) (i : Z) : G (list pyval) :=
+                   match bs with [] => ret [] | b :: bs' => t <- op2 OMul (PInt (2 ^ i)) b ;; r <- go bs' (i + 1) ;; ret (t :: r) end) sl 0 ;;
+          py_sum ts
+      end
+  | KList l =>
+      rs <- (fix go (ks : list pschema) (pos : nat) : G (list pyval) :=
+               match ks with [] => ret [] | k1 :: ks' => a <- unpack_v k1 bits pos ;; r <- go ks' (pos + sch_bitlen k1)%nat ;; ret (a :: r) end) l pos ;;
+      ret (PList rs)
+  | KRepeat s t =>
+      rs <- mapM (fun i => unpack_v s bits (pos + i * sch_bitlen s)%nat) (seq 0 t) ;; ret (PList rs)
+  end.
+
+(* ---------------- runtime.snark ---------------- *)
+Fixpoint leaves (t : rtree) : list nat :=
+  match t with RLeaf r => [r] | RList l | RTuple l => flat_map leaves l end.
+(* for_each_in(converter, struct) over the leaves, in order; three type-wise passes as in snark__ *)
+Fixpoint conv_pass (f : pyval -> G (option pyval)) (ls : list nat) (r : regs) : G regs :=
+  match ls with
+  | [] => ret r
+  | l :: ls' => o <- f (rget r l) ;; conv_pass f ls' (match o with Some v => rset r l v | None => r end)
+  end.
+Definition arg_int (v : pyval) : G (option pyval) :=
+  match v with PInt k => x <- pubval (VConst k) ;; ret (Some (PLC x)) | _ => ret None end.
+Definition arg_float (v : pyval) : G (option pyval) :=
+  match v with PFloat m e => x <- pubval (VConst (scale_float c m e)) ;; ret (Some (PFxp 0 x)) | _ => ret None end.
+(* result passes: x.val() for LinComb, then LinCombFxp, then LinCombBool; the register then holds a marker of the plain value *)
+Definition res_lc (v : pyval) : G (option pyval) :=
+  match v with PLC x => lcval x ;;; ret (Some (PTuple [PInt 0; PLC x])) | _ => ret None end.
+Definition res_fxp (v : pyval) : G (option pyval) :=
+  match v with PFxp _ x => lcval x ;;; ret (Some (PTuple [PInt 9; PLC x])) | _ => ret None end.
+Definition res_bool (v : pyval) : G (option pyval) :=
+  match v with PBool _ x => lcval x ;;; ret (Some (PTuple [PInt 0; PLC x])) | _ => ret None end.
+Definition out_plain (v : pyval) : G unit :=
+  match v with
+  | PTuple [PInt tag; PLC x] => emitc (COut tag (sval x) [])       (* the plain value returned by val() *)
+  | _ => emit_out v
+  end.
+
 Fixpoint gen_stmt (st : stmt) (r : regs) {struct st} : G regs :=
   let store d v := (v' <- name_val v ;; emit_out v' ;;; ret (rset r d v')) in
   match st with
@@ -208,6 +375,28 @@ Fixpoint gen_stmt (st : stmt) (r : regs) {struct st} : G regs :=
       | _ => static_raise RuntimeError
       end
   | SBSet _ _ | SBGet _ _ | SOIf _ _ _ _ | SOWhile _ _ _ _ | SBreakIf _ | SOFor _ _ _ _ _ _ => static_raise ModelError   (* block API only at statement level *)
+  | SPack d k src => v <- pack_v k (rget r src) ;; store d v
+  | SUnpack d k src => match rget r src with PList bits => v <- unpack_v k bits 0 ;; store d v | _ => static_raise TypeError end
+  | SSnark d args body res =>
+      let als := flat_map leaves args in
+      r1 <- conv_pass arg_int als r ;;
+      r2 <- conv_pass arg_float als r1 ;;
+      r3 <- (fix go (b : list stmt) (r0 : regs) : G regs :=
+               match b with [] => ret r0 | s1 :: b' => r' <- gen_stmt s1 r0 ;; go b' r' end) body r2 ;;
+      let rls := leaves res in
+      r4 <- conv_pass res_lc rls r3 ;;
+      r5 <- conv_pass res_fxp rls r4 ;;
+      r6 <- conv_pass res_bool rls r5 ;;
+      mapM (fun l => out_plain (rget r6 l)) rls ;;;
+      emit_out PNone ;;; ret (rset r6 d PNone)
+  | SArrNew d elems => store d (PArr false (map (rget r) elems))
+  | SArrGet d a idx => match rget r a with
+                       | PArr _ l => v <- arr_get l (map (rget r) idx) ;; store d v
+                       | _ => static_raise TypeError end
+  | SArrSet a idx v => match rget r a with
+                       | PArr true _ => static_raise TypeError          (* ArrayRow.__setitem__ *)
+                       | PArr false l => l' <- arr_set l (map (rget r) idx) (rget r v) ;; v' <- name_val (PArr false l') ;; ret (rset r a v')
+                       | _ => static_raise TypeError end
   | SProbe => s <- get ;;
       emitc (COut 10 (match guard s with Some g => sval g | None => VConst (-1) end) []) ;;;
       emitc (COut 11 (VB2Z (ignore s)) []) ;;; ret r
